@@ -45,7 +45,21 @@ fn value_text(f: &Field, v: u128) -> String {
         Kind::Bool => (v != 0).to_string(),
         Kind::Mac => format!("\"{}\"", mac_text(&(0..6).map(|i| (v >> (8 * (5 - i))) as u8).collect::<Vec<_>>())),
         Kind::Ip4 => format!("\"{}\"", ip4_text(&(0..4).map(|i| (v >> (8 * (3 - i))) as u8).collect::<Vec<_>>())),
-        Kind::Ip6 => format!("\"{}\"", ip6_text(&(0..16).map(|i| (v >> (8 * (15 - i))) as u8).collect::<Vec<_>>())),
+        Kind::Ip6 => {
+            // a zero run (also a single group) is sometimes written as '::'
+            let g: Vec<String> = (0..8).map(|i| format!("{:x}", (v >> (16 * (7 - i))) as u16)).collect();
+            let zeros: Vec<usize> = (0..8).filter(|i| g[*i] == "0").collect();
+            if !zeros.is_empty() && (v >> 3) & 1 == 1 {
+                let st = zeros[(v as usize >> 5) % zeros.len()];
+                let mut en = st;
+                while en + 1 < 8 && g[en + 1] == "0" && (v >> (en + 7)) & 1 == 1 {
+                    en += 1;
+                }
+                format!("\"{}::{}\"", g[..st].join(":"), g[en + 1..].join(":"))
+            } else {
+                format!("\"{}\"", g.join(":"))
+            }
+        }
     }
 }
 
@@ -446,15 +460,157 @@ fn history(ctx: &mut Ctx, bytes: &[u8]) -> Vec<Violation> {
     out
 }
 
+/// assignments below a layer, then its dispatch field set to another value and back: nothing assigned
+/// earlier may be lost, and the bytes differ from the original only inside the assigned fields
+fn dispatch_history(ctx: &mut Ctx, bytes: &[u8]) -> Vec<Violation> {
+    let mut c = Choices::new(bytes);
+    let stack = c.below(8) as u8;
+    let frame = stack_frame(&mut c, stack);
+    let (chain, _) = parse_chain(&frame);
+    if chain.len() < 2 {
+        return vec![];
+    }
+    let li = c.below(chain.len() - 1);
+    let dname = match chain[li].layer {
+        Layer::Eth | Layer::Vlan => "type",
+        Layer::Ipv4 => "proto",
+        Layer::Ipv6 => "nextheader",
+        _ => return vec![],
+    };
+    let df = match FIELDS.iter().find(|f| f.layer == chain[li].layer && f.name == dname) {
+        Some(f) => f,
+        None => return vec![],
+    };
+    let mut reference = frame.clone();
+    let mut inner = String::new();
+    let mut reads: Vec<String> = Vec::new();
+    let mut wants: Vec<(usize, &'static Field)> = Vec::new();
+    let k = 1 + c.below(3);
+    for _ in 0..k {
+        let lj = li + 1 + c.below(chain.len() - li - 1);
+        let p = &chain[lj];
+        let fs: Vec<&Field> = fields_of(p.layer).into_iter().filter(|f| f.writable && !f.structural).collect();
+        if fs.is_empty() {
+            continue;
+        }
+        let f = fs[c.below(fs.len())];
+        let max: u128 = if f.width >= 128 { u128::MAX } else { (1u128 << f.width) - 1 };
+        let v = (((c.u64() as u128) << 64) | c.u64() as u128) & max;
+        set_bits(&mut reference, p.start, f.bit, f.width, v);
+        inner.push_str(&format!("(${}).{} = {};\n", lj + 1, f.name, value_text(f, v)));
+        reads.push(format!("(${}).{}", lj + 1, f.name));
+        wants.push((p.start, f));
+    }
+    if reads.is_empty() {
+        return vec![];
+    }
+    let orig = get_bits(&frame, chain[li].start, df.bit, df.width);
+    let other = match c.below(4) {
+        0 => orig ^ 1,
+        1 => 0,
+        2 => if df.width == 16 { [0x0800u128, 0x86dd, 0x8100][c.below(3)] } else { [6u128, 17, 41][c.below(3)] },
+        _ => (orig + 1 + c.below(200) as u128) & ((1u128 << df.width) - 1),
+    };
+    if other == orig {
+        return vec![];
+    }
+    let flip = format!("(${}).{} = {};\n", li + 1, dname, other);
+    let restore = format!("(${}).{} = {};\n", li + 1, dname, orig);
+    let mut e1 = reference.clone();
+    set_bits(&mut e1, chain[li].start, df.bit, df.width, other);
+    let hdr = record_header(9, 8, frame.len() as u32, frame.len() as u32);
+    let full = |b: &[u8]| -> Vec<u8> { hdr.iter().chain(b.iter()).copied().collect() };
+    ctx.case(hash_bytes(&frame) ^ super::super::choices::hash_str(&format!("{}{}", inner, flip)), true);
+    ctx.class("dispatch-history");
+    let case = json!({"dispatch": true, "frame": hex(&frame), "inner": inner, "flip": flip, "restore": restore, "reads": reads, "e1": hex(&full(&e1)), "e2": hex(&full(&reference))});
+    guard("dispatch", "frame", &hex(&frame));
+    run_dispatch("dispatch", &frame, &inner, &flip, &restore, &reads, &full(&e1), &full(&reference), &case)
+}
+
+#[allow(clippy::too_many_arguments)]
+fn run_dispatch(section: &str, frame: &[u8], inner: &str, flip: &str, restore: &str, reads: &[String], e1: &[u8], e2: &[u8], case: &Value) -> Vec<Violation> {
+    let mut out = Vec::new();
+    // run 1: inner assignments, then the dispatch field flipped
+    let pkt = make_packet(9, 8, frame.len() as u32, frame.len() as u32, frame);
+    let s1 = format!("{}{}0", inner, flip);
+    match run_text_with_pkt(&s1, Rc::clone(&pkt)) {
+        Outcome::Ran(r) => {
+            if let Some((m, _)) = &r.err {
+                out.push(Violation::new(section, "dispatch-history:runtime-error", format!("{}\n{}", m, s1), case.clone()));
+                return out;
+            }
+            match packet_bytes(&pkt) {
+                Ok(got) if got == e1 => {}
+                Ok(got) => {
+                    out.push(Violation::new(section, "dispatch-history:earlier-assignment-lost", format!("after\n{}the packet serialises to\n got:      {}\n expected: {}", s1, hex(&got), hex(e1)), case.clone()));
+                    return out;
+                }
+                Err(p) => {
+                    out.push(Violation::new(section, p.signature(), p.describe(), case.clone()));
+                    return out;
+                }
+            }
+        }
+        Outcome::Panic(p) => {
+            out.push(Violation::new(section, p.signature(), p.describe(), case.clone()));
+            return out;
+        }
+        _ => return out,
+    }
+    // run 2: ... and set back: the deeper fields read as assigned
+    let pkt = make_packet(9, 8, frame.len() as u32, frame.len() as u32, frame);
+    let s2 = format!("{}{}{}[{}]", inner, flip, restore, reads.join(", "));
+    if let Outcome::Ran(r) = run_text_with_pkt(&s2, Rc::clone(&pkt)) {
+        if let Some((m, _)) = &r.err {
+            out.push(Violation::new(section, "dispatch-history:runtime-error", format!("{}\n{}", m, s2), case.clone()));
+            return out;
+        }
+        let (chain, _) = parse_chain(&e2[16..]);
+        let _ = chain;
+        if let Val::Arr(vals) = &r.last {
+            for (k, expr) in reads.iter().enumerate() {
+                // expected value: read from the reference bytes through the same expression's field
+                let depth: usize = expr[2..3].parse().unwrap_or(1);
+                let fname = expr.split('.').nth(1).unwrap_or("");
+                let (ch, _) = parse_chain(&e2[16..]);
+                if let Some(p) = ch.get(depth - 1) {
+                    if let Some(f) = FIELDS.iter().find(|f| f.layer == p.layer && f.name == fname) {
+                        let exp = expected_field(&e2[16..], p.start, f);
+                        let ok = if f.layer == Layer::Tcp && f.name == "flags" { tcp_flags_ok(&e2[16..], p.start, &vals[k]) } else { matches_expected(&exp, &vals[k]) };
+                        if !ok {
+                            out.push(Violation::new(section, "dispatch-history:value-reverted", format!("after\n{}\n{} reads {} (expected {})", s2, expr, vals[k].show(), show_expected(&exp)), case.clone()));
+                            return out;
+                        }
+                    }
+                }
+            }
+        }
+        if packet_bytes(&pkt).ok().as_deref() != Some(e2) {
+            out.push(Violation::new(section, "dispatch-history:bytes-after-restore", format!("after\n{}the packet does not serialise to the original with the assigned fields replaced", s2), case.clone()));
+        }
+    }
+    out
+}
+
 pub fn run(ctx: &mut Ctx) {
     fields_section(ctx);
     record_section(ctx);
     ctx.more_samples(2);
     let n = ctx.nshards as u32;
     drive(ctx, "histories", ctx.tier.pick(160_000, 3_000_000) / n, 32, 400, |ctx, bytes| history(ctx, bytes));
+    drive(ctx, "dispatch", ctx.tier.pick(60_000, 1_000_000) / n, 32, 400, |ctx, bytes| dispatch_history(ctx, bytes));
 }
 
 pub fn replay(section: &str, case: &Value, ctx: &mut Ctx) {
+    if case.get("dispatch").is_some() {
+        let frame = unhex(case["frame"].as_str().unwrap_or(""));
+        let reads: Vec<String> = case["reads"].as_array().map(|a| a.iter().filter_map(|x| x.as_str().map(|s| s.to_string())).collect()).unwrap_or_default();
+        let (e1, e2) = (unhex(case["e1"].as_str().unwrap_or("")), unhex(case["e2"].as_str().unwrap_or("")));
+        for v in run_dispatch(section, &frame, case["inner"].as_str().unwrap_or(""), case["flip"].as_str().unwrap_or(""), case["restore"].as_str().unwrap_or(""), &reads, &e1, &e2, case) {
+            ctx.report(v);
+        }
+        return;
+    }
     if let Some(script) = case.get("history").and_then(|v| v.as_str()) {
         let frame = unhex(case["frame"].as_str().unwrap_or(""));
         let expected = unhex(case["expected"].as_str().unwrap_or(""));
